@@ -462,6 +462,9 @@ def config_row(r, bench, rec, stats, ctx=None):
     elif row['env'] == 'with_path':
         env = {'PATH': bench.bin + os.pathsep + '/usr/bin' + os.pathsep + '/bin', 'VERIF_MARK': token, 'LANG': 'C'}
         command = 'launchprobe'            # found through the env argument's PATH only
+    elif row['env'] == 'empty':
+        env = {}                           # an explicitly empty environment is a request like any other
+        command = bench.probe
     else:
         env = {'VERIF_MARK': token}
         command = bench.probe
